@@ -37,6 +37,7 @@ def _xsd(wild):
     <xs:attribute name="opt" type="xs:int"/>
     <xs:attribute name="fix" type="xs:decimal" fixed="1.0"/>
     <xs:attribute name="def" type="xs:int" default="7"/>
+    <xs:attribute name="fe" type="xs:string" fixed=""/>
     <xs:attribute ref="t:glob"/>
     <xs:attribute name="qual" type="xs:int" form="qualified"/>
     <xs:attributeGroup ref="t:ag"/>
@@ -58,14 +59,21 @@ POOL = [
     ("{ext}x", ["z"]),                  # foreign namespace, no declaration available
     ("und", ["z"]),                     # undeclared, no namespace
     ("{tns}gfix", ["3", "4"]),          # global attribute of the target namespace, not referenced by the type
+    ("fe", ["", "x"]),                  # fixed to the empty string
 ]
-DECL = {"req": "int", "opt": "int", "fix": "fixed-decimal-1", "def": "int", "{tns}glob": "int", "{tns}qual": "int", "grp": "boolean"}
+DECL = {"fe": "fixed-empty", "req": "int", "opt": "int", "fix": "fixed-decimal-1", "def": "int", "{tns}glob": "int", "{tns}qual": "int", "grp": "boolean"}
 GLOBAL_ATTRS = {"{tns}glob": "int", "{tns}gfix": "fixed-int-3"}
 _S = {}
 
 
 def configure(cfg):
     CFG.update(cfg)
+    if CFG.get("w"):
+        key = (CFG["version"], "compose", tuple(CFG["w"]))
+        if key not in _S:
+            cls = xmlschema.XMLSchema10 if CFG["version"] == "1.0" else xmlschema.XMLSchema11
+            _S[key] = cls(_compose_xsd(*CFG["w"]))
+        return
     key = (CFG["version"], CFG["wild"])
     if key not in _S:
         cls = xmlschema.XMLSchema10 if CFG["version"] == "1.0" else xmlschema.XMLSchema11
@@ -82,6 +90,8 @@ def _value_ok(kind, text):
             return Decimal(text) == Decimal("1.0")
         except Exception:
             return False
+    if kind == "fixed-empty":
+        return text == ""
     if kind == "fixed-int-3":
         return text.isdigit() and int(text) == 3
     return True
@@ -178,7 +188,7 @@ def h_filling(**kw) -> bool:
         return False
     data = data or {}
     got = {k[1:]: v for k, v in data.items() if k.startswith('@') and not k.startswith('@xmlns')}
-    want = {"req": 1}
+    want = {"req": 1, "fe": ""}          # a fixed value is reported even when the attribute is absent, also the empty string
     want["fix"] = Decimal("1") if kw["p_fix"] else Decimal("1.0")
     if kw["p_opt"]:
         want["opt"] = 2
@@ -194,7 +204,71 @@ def h_filling(**kw) -> bool:
     return got == want
 
 
+# ---------------------------------------------------------------- composed attribute wildcards
+# The complete wildcard of a type is composed while the schema is built: the intersection of the type's own wildcard with
+# the wildcards of the referenced attribute groups, united with the base type's wildcard for an extension (Structures
+# 3.4.2 "complete wildcard").  The elements u1..u3 use each operand alone: composing must not alter the operands.
+W_POOL = ["##any", "##other", "##local", "##targetNamespace urn:a", "urn:a urn:b", "##local urn:a", "urn:b"]
+C_ELEMS = ["c1", "c2", "c3", "c4", "u1", "u2", "u3"]
+C_NS = ["", TNS, "urn:a", "urn:b", "urn:z"]
+
+
+def _compose_xsd(w1, w2, w3):
+    any_ = '<xs:anyAttribute namespace="%s" processContents="skip"/>'
+    return """<xs:schema xmlns:xs="http://www.w3.org/2001/XMLSchema" targetNamespace="tns" xmlns:t="tns">
+  <xs:attributeGroup name="g1">%s</xs:attributeGroup>
+  <xs:attributeGroup name="g2">%s</xs:attributeGroup>
+  <xs:complexType name="B">%s</xs:complexType>
+  <xs:element name="c1"><xs:complexType><xs:attributeGroup ref="t:g1"/><xs:attributeGroup ref="t:g2"/></xs:complexType></xs:element>
+  <xs:element name="c2"><xs:complexType><xs:attributeGroup ref="t:g1"/>%s</xs:complexType></xs:element>
+  <xs:element name="c3"><xs:complexType><xs:complexContent><xs:extension base="t:B"><xs:attributeGroup ref="t:g1"/></xs:extension></xs:complexContent></xs:complexType></xs:element>
+  <xs:element name="c4"><xs:complexType><xs:attributeGroup ref="t:g2"/><xs:attributeGroup ref="t:g1"/></xs:complexType></xs:element>
+  <xs:element name="u1"><xs:complexType><xs:attributeGroup ref="t:g1"/></xs:complexType></xs:element>
+  <xs:element name="u2"><xs:complexType><xs:attributeGroup ref="t:g2"/></xs:complexType></xs:element>
+  <xs:element name="u3" type="t:B"/>
+</xs:schema>""" % (any_ % w1, any_ % w2, any_ % w3, any_ % w2)
+
+
+def _w_allows(w, ns):
+    """set denotation of a namespace constraint (Structures 3.10.4 Wildcard allows Namespace Name)"""
+    if w == "##any":
+        return True
+    if w == "##other":
+        return ns != "" and ns != TNS
+    members = {"": None}
+    allowed = set()
+    for tok in w.split():
+        allowed.add("" if tok == "##local" else TNS if tok == "##targetNamespace" else tok)
+    return ns in allowed
+
+
+def compose_reference(elem, ns):
+    w1, w2, w3 = CFG["w"]
+    a1, a2, a3 = _w_allows(w1, ns), _w_allows(w2, ns), _w_allows(w3, ns)
+    return {"c1": a1 and a2, "c2": a1 and a2, "c3": a1 or a3, "c4": a1 and a2, "u1": a1, "u2": a2, "u3": a3}[elem]
+
+
+def pre_compose(fn, **kw):
+    return 0 <= kw["e"] < len(C_ELEMS) and 0 <= kw["ns"] < len(C_NS)
+
+
+def h_compose(**kw) -> bool:
+    schema = _S[(CFG["version"], "compose", tuple(CFG["w"]))]
+    elem = C_ELEMS[pick(kw["e"], len(C_ELEMS))]
+    ns = C_NS[pick(kw["ns"], len(C_NS))]
+    node = ET.Element('{tns}%s' % elem, {('{%s}x' % ns) if ns else 'x': 'v'})
+    errors = list(schema.iter_errors(node))
+    return (not errors) == compose_reference(elem, ns)
+
+
 def explain(fn, args):
+    if fn == "h_compose":
+        schema = _S[(CFG["version"], "compose", tuple(CFG["w"]))]
+        elem, ns = C_ELEMS[args["e"]], C_NS[args["ns"]]
+        node = ET.Element('{tns}%s' % elem, {('{%s}x' % ns) if ns else 'x': 'v'})
+        return "XSD %s wildcards g1=%r g2=%r base=%r: element %s with an attribute in namespace %r: errors %r; reference says %s" % (
+            CFG["version"], CFG["w"][0], CFG["w"][1], CFG["w"][2], elem, ns, [e.reason for e in schema.iter_errors(node)][:1],
+            "admitted" if compose_reference(elem, ns) else "not admitted")
     schema = _S[(CFG["version"], CFG["wild"])]
     if fn == "h_verdict":
         attrs = _attrs(args)
@@ -237,4 +311,33 @@ def obligations(tier, seed):
                         "args": [[a, "bool"] for a in ("p_opt", "p_fix", "p_def", "p_grp", "use_defaults", "fill_missing")],
                         "config": {"wild": w, "version": version, "maxp": 9}, "timeout": 200, "twin_timeout": 30,
                         "bound": "presence of 4 optional attributes x use_defaults x fill_missing"})
+        for w in compose_configs(quick):
+            out.append({"name": "compose/%s/%s" % (version, "+".join(x.replace(' ', ',') for x in w)), "fn": "h_compose", "pre": "pre_compose",
+                        "args": [["e", "int"], ["ns", "int"]], "config": {"version": version, "w": list(w), "wild": "none"},
+                        "timeout": 200, "twin_timeout": 30,
+                        "bound": "elements %r x one attribute in a namespace from %r" % (C_ELEMS, C_NS)})
     return out
+
+
+def compose_configs(quick):
+    """(g1, g2, base) namespace constraints whose intersection and union are expressible in both XSD versions"""
+    full = [(a, b, c) for a in W_POOL for b in W_POOL for c in W_POOL if _expressible(a, b, c)]
+    if not quick:
+        return full
+    pick_ = [("##other", "##local urn:a", "urn:b"), ("##local urn:a", "##other", "##local"), ("##any", "urn:a urn:b", "##other"),
+             ("urn:a urn:b", "##any", "urn:b"), ("##targetNamespace urn:a", "urn:a urn:b", "##local"), ("urn:b", "##local urn:a", "##any")]
+    return [w for w in pick_ if w in full]
+
+
+def _expressible(a, b, c):
+    # XSD 1.0 cannot express not(tns) u {absent,...} (union clause 5.3 / 6) nor the union of ##other with a set holding tns only
+    def is_set(w):
+        return not w.startswith("##any") and w != "##other"
+    for x, y in ((a, c),):                     # the union operands (g1 with the base wildcard)
+        if "##other" in (x, y):
+            other = y if x == "##other" else x
+            if is_set(other):
+                toks = other.split()
+                if ("##local" in toks) != ("##targetNamespace" in toks):
+                    return False
+    return True
